@@ -241,6 +241,7 @@ class H2Reactor:
       max_frame        client's SETTINGS_MAX_FRAME_SIZE (default 16384)
       credit           'auto' (return every DATA frame's length on stream and connection at once) |
                        'none' | 'conn_only' | 'stream_only'
+      prio_after_credit  list of weights: every stream-level WINDOW_UPDATE is followed (same write) by a PRIORITY frame for that stream
       ack_settings     bool (default True)
       ack_ping         bool (default True)
     The accountant records a violation whenever the server sends DATA beyond a window/frame size.
@@ -258,6 +259,7 @@ class H2Reactor:
         self.streams = {}
         self.goaway = None
         self.goaways = []
+        self.prio_sent = 0
         self.settings_seen = 0
         self.settings_acks = 0
         self.server_settings = {}
@@ -380,6 +382,11 @@ class H2Reactor:
                     if credit in ("auto", "stream_only") and not ev["end"] and s.rst is None:
                         reply += self.fb.window_update(sid, flow)
                         self.sent_window_update(sid, flow)
+                        if self.spec.get("prio_after_credit"):
+                            # a client that re-weights the stream it has just given credit to (PRIORITY is the last frame about it)
+                            ws = self.spec["prio_after_credit"]
+                            reply += self.fb.priority(sid, dep=0, weight=ws[self.prio_sent % len(ws)])
+                            self.prio_sent += 1
             elif t == "headers":
                 s = self.sv(ev["sid"])
                 if s.ended or s.rst is not None:
@@ -449,6 +456,12 @@ class H2Reactor:
             out += self.fb.window_update(sid, n)
             self.sent_window_update(sid, n)
             self.drips += 1
+        if self.spec.get("prio_after_credit"):
+            ws = self.spec["prio_after_credit"]
+            for sid in todo:
+                if sid:
+                    out += self.fb.priority(sid, dep=0, weight=ws[self.prio_sent % len(ws)])
+                    self.prio_sent += 1
         return [["feed_nosettle", bytes(out)]] if out else []
 
     def goaway_seen_fatal(self):
